@@ -162,6 +162,11 @@ func c18GenPatch(r *Rand) string {
 
 // c18GenBase returns a base version for PseudoVersion and whether it is valid-or-empty.
 func c18GenBase(r *Rand) (string, bool) {
+	v, _ := c18GenBase0(r)
+	return v, v == "" || semver.IsValid(v) // the shared grammar generator occasionally yields a leading-zero numeric identifier
+}
+
+func c18GenBase0(r *Rand) (string, bool) {
 	switch r.Intn(16) {
 	case 0, 1:
 		return "", true
@@ -501,7 +506,7 @@ func c18NextRelease(older string) string {
 func c18Oracle(g *Gen, n int) {
 	for i := 0; i < n; i++ {
 		older, _ := c18GenBase(g.Rand)
-		if older != "" && !semver.IsValid(older) {
+		for older != "" && !semver.IsValid(older) {
 			older = genValidVersion(g.Rand)
 		}
 		major := ""
